@@ -6,6 +6,7 @@ import TinsModel.Wire.Wifi.TheoremsEapolReparse
 import TinsModel.Wire.Wifi.TheoremsRadioTap
 import TinsModel.Wire.Wifi.TheoremsCodec
 import TinsModel.Wire.Wifi.TheoremsSetters
+import TinsModel.Wire.Wifi.ThFamily
 /-
   Per-layer theorems of the Wifi family for the four wire properties (C01 parse_safe, C02 writesOnly,
   C03 reparse, C04 codec inverses), split by class group:
@@ -17,6 +18,8 @@ import TinsModel.Wire.Wifi.TheoremsSetters
     TheoremsEapolReparse  C03 for the EAPOL key frames
     TheoremsCodec     C04: decode ∘ encode = id for every typed tagged option and RSNInformation (explicit Repr)
     TheoremsSetters   C04: bit-field / member setters and getters of the raw structs form a last-write map
+    ThEapolApi        EAPOL constructors / setters keep the raw struct sizes; what the two `from_bytes` factories return
+    ThFamily          family-level theorems over `Wifi.parse/hdr/trl/write/mk/apply` (what the registry dispatches to)
     TheoremsRadioTap  RadioTap: the RadioTapParser walk is memory-safe and terminates, parse safety, FCS trailer writer
 -/
 namespace Tins.Wire.Wifi
